@@ -21,7 +21,7 @@
    Generated ids: GenRequestId / GenLockId are modelled as counters; generated lock ids live above 2^128, i.e. they are
    different from every key-derived id and from each other (trusted: freshness of GenLockId). *)
 From Coq Require Import List NArith ZArith Bool String Ascii.
-From Slock Require Import Base.Util Data.Spec Engine.Types Engine.Queues Engine.Timers Engine.Engine Engine.Engine2.
+From Slock Require Import Kv.KvFlags Base.Util Data.Spec Engine.Types Engine.Queues Engine.Timers Engine.Engine Engine.Engine2.
 Import ListNotations.
 Open Scope N_scope.
 
@@ -310,18 +310,20 @@ Definition convert (a : list bytes) : conv :=
     else if is_ n "INCR" || is_ n "INCRBY" then conv_incr false a
     else if is_ n "DECR" || is_ n "DECRBY" then conv_incr true a
     else if is_ n "EXPIRE" || is_ n "PEXPIRE" || is_ n "PERSIST" then
+      let build (z : Z) :=
+        let c := mkT true 2 0 0 0 0 false None in
+        let c := if is_ n "EXPIRE" then
+                   let '(e, minute) := sec_time z in if minute then set_eflag (set_expried c e) 64 else set_expried c e
+                 else if is_ n "PEXPIRE" then let '(e, fl) := msec_time z in set_eflag (set_expried c e) fl
+                 else set_eflag (set_expried c 32767) 16384 in
+        CWrite (set_eflag c (N.lor (t_eflag c) (256 + 8192))) WExpire in
       match a with
       | _ :: k :: s :: _ =>
           match parse_int s with
           | None => CErr "Command Parse EX Value Error"
-          | Some z =>
-              let c := mkT true 2 0 0 0 0 false None in
-              let c := if is_ n "EXPIRE" then
-                         let '(e, minute) := sec_time z in if minute then set_eflag (set_expried c e) 64 else set_expried c e
-                       else if is_ n "PEXPIRE" then let '(e, fl) := msec_time z in set_eflag (set_expried c e) fl
-                       else set_eflag (set_expried c 32767) 16384 in
-              CWrite (set_eflag c (N.lor (t_eflag c) (256 + 8192))) WExpire
+          | Some z => build z
           end
+      | [_; _] => if kv_persist_fix && is_ n "PERSIST" then build 0%Z else CErr E_ARGS   (* source switch: Kv/KvFlags.v *)
       | _ => CErr E_ARGS
       end
     else if is_ n "GET" then match a with _ :: _ :: _ => CRead WGet | _ => CErr E_ARGS end
